@@ -198,6 +198,9 @@ func (s *Sim) Run() {
 			s.ForkCheck(resume)
 		}
 	}
+	if s.Mode.OnFinish != nil {
+		s.Mode.OnFinish(s)
+	}
 	s.WindDown(true)
 	if s.Mode.Cuts || s.Mode.WriteFail {
 		r.Nontrivial = s.faults > 0 && s.locked > 0
